@@ -170,6 +170,14 @@ def run(ck):
           "%d frame pushes, each dominated by its own resize(.., zeroed) of the register stack" % len(pushes) if len(pushes) >= 2 and arms_ok else
           "a function frame is pushed without a zero-filling resize of the register stack before it (%d pushes, %d zero-filling resizes): locals of the callee can start with values left behind by an earlier call" % (len(pushes), len(grows)),
           rc.loc(pushes[0][0]) if pushes else rc.loc())
+    # data and element segments are applied in DECLARATION order (later segments overwrite earlier ones where they overlap):
+    # Module::compile hands the sections on as they are - no sorting, reversing, de-duplication or filtering
+    cf = getfn(ck, "sc", W, W + "::artifact::<impl concordium_wasm::types::Module>::compile")
+    if cf:
+        reord = cf.calls(r"::sort[a-z_]*$|::reverse$|::dedup[a-z_]*$|::retain$|Iterator::rev$")   # (the export map is built with filter_map: not a reordering)
+        ck.ob("WHO", cf.path, "segments-kept-in-declaration-order", not reord,
+              "no sorting, reversing or de-duplication of sections in Module::compile" if not reord else
+              "%s is applied while the module is compiled: segments are no longer applied in the order they were declared" % reord[0][1]["f"]["name"], cf.loc(reord[0][0]) if reord else cf.loc(), nontrivial=False)
     hsw = enum_switch(hf, 90)
     rsw = enum_switch(rc, 90)
     if not ck.anchor(hsw is not None and rsw is not None, "TAB", "dispatch", "opcode dispatch in compiler and interpreter"):
